@@ -349,7 +349,8 @@ func TestProp(t *testing.T) {
 	// (fresh / shadows a root scalar / shadows the collection itself) x root kind x v-else x v-if x tag
 	core1(run.Thorough(), each("core1"))
 	if ok {
-		rec.Exhaustive(fmt.Sprintf("core1: single loop, every sequence kind x lengths x forms x shadowing names x root kinds x v-else separators x v-if x element/template (%d cases)", n))
+		design := run.Pick("v-else separator / v-if kind / element-or-template rotated over the rest", "full product")
+		rec.Exhaustive(fmt.Sprintf("core1 (%s): single loop, every sequence kind x lengths 0..4 + nil slice / nil value / missing x forms x loop-variable names (fresh, root scalar by key / Go name / JSON tag, own collection) x index names x root kinds x v-else x v-if x element/template (%d cases)", design, n))
 	}
 	// exhaustive core 2: two nested loops, every assignment of 4 names to (outer idx, outer var, inner idx, inner var)
 	n0 := n
